@@ -22,11 +22,8 @@ verus! {
 //@   ret r
 //@   ensures [C03+C04.args.is_nonnull] r == (self is NonNull)
 //@ end
-//@ contract nitrogql_checker::common ::fn check_value
+//@ fragment contract_check_value.rs
 //@   attr #[verifier::external_body]
-//@   requires [assumed.value.pre_schema_wf] crate::schema_wf(definitions)
-//@   ensures [assumed.value.frame] crate::extends_errs(old(result)@, final(result)@)
-//@   ensures [assumed.value.exact] (final(result)@.len() == old(result)@.len()) <==> crate::value_valid(definitions, variables, *value, *expected_type)
 //@ end
 
 /// ghost bookkeeping for the `seen_args` counter: the set of supplied-argument indices bound to the definitions seen so far
